@@ -470,7 +470,7 @@ func contractDerived(name string) bool {
 		kind = kind[:j]
 	}
 	switch kind {
-	case "post", "inv-init", "inv-step", "step":
+	case "post", "inv-init", "inv-step", "step", "entry":
 		return true
 	}
 	return false
